@@ -3,8 +3,9 @@
 diff=$1; shift
 cd /repo
 if ! git apply --check "$diff" 2>/dev/null; then echo "DIFF DOES NOT APPLY: $diff"; exit 2; fi
+rm -rf /tmp/evidence_bak_$$; cp -r /verif/evidence /tmp/evidence_bak_$$
 git apply "$diff"
 for p in "$@"; do
   (cd /verif && TPV_NO_XCHECK=${TPV_NO_XCHECK:-0} python3-vt -m tpv.run_check $p --tier quick 2>&1 | grep -v "WARNING conda" | grep "^\[\|VIOLATION\|TOOL-FAULT\|UNDECIDED\|SUBSET" | cut -c1-260 | head -8)
 done
-git checkout -- . ; git status --short | grep -v '^??' | head -3
+git checkout -- . ; rm -rf /verif/evidence; mv /tmp/evidence_bak_$$ /verif/evidence; git status --short | grep -v '^??' | head -3
